@@ -10,3 +10,5 @@ import Spade.Properties.C17
 #print axioms Spade.C17_direction_unique
 #print axioms Spade.C17_model_trace_vertex_sound
 #print axioms Spade.C17_model_trace_edge_sound
+#print axioms Spade.C17_collinear_on_segment_exact
+#print axioms Spade.C17_collinear_before_exact
